@@ -207,6 +207,7 @@ def canaries():
 
 
 def run_shard(spec, ctx):
+    import multidecoder
     from multidecoder import registry as regmod
     from multidecoder.multidecoder import Multidecoder
 
@@ -231,7 +232,6 @@ def run_shard(spec, ctx):
         for maker, what in ((lambda: regmod.build_registry(), "build_registry()"), (lambda: Multidecoder().decoders, "Multidecoder().decoders")):
             reg = maker()
             kws, ans = split_registry(reg)
-            import multidecoder
             kwdir = os.path.join(os.path.dirname(multidecoder.__file__), "keywords")
             check_keyword_side(kws, kwdir, ctx, case, report)
             check_analyzers(ans, all_ids, report, what)
@@ -299,6 +299,21 @@ def run_shard(spec, ctx):
             judge(None, ["nosuchmodule"])
             judge(["shell", "nosuchmodule"], ["ell", "power"])
             # the parameters are documented as iterables of names: every shape of iterable, through both entry points
+            # the documented default of the directory parameter, passed explicitly, still means the shipped keywords
+            for kw in ({"directory": ""}, {"directory": "", "include": ["shell"]}, {}):
+                case3 = {"kind": "default-explicit", "kwargs": {k: v for k, v in kw.items()}}
+                if ctx.begin(case3):
+                    ctx.evaluated()
+                    ctx.count("default_directory_passed_explicitly")
+                    kws3, _ = split_registry(regmod.build_registry(**kw))
+                    n_files = sum(1 for p in pathlib.Path(os.path.join(os.path.dirname(multidecoder.__file__), "keywords")).rglob("*")
+                                  if p.is_file() and any(ln for ln in p.read_bytes().splitlines()))
+                    if len(kws3) != n_files:
+                        reporter(case3)("registry:keyword-searchers:default-directory", f"build_registry({kw}) has {len(kws3)} keyword searchers, {n_files} non-empty shipped files")
+                    if "directory" in kw and "include" not in kw:
+                        k4 = regmod.get_keywords("")
+                        if len(k4) != n_files:
+                            reporter(case3)("registry:keyword-searchers:default-directory", f"get_keywords('') has {len(k4)} keyword searchers, {n_files} non-empty shipped files")
             for shape in SHAPES:
                 for via in ("get_analyzers", "build_registry"):
                     judge([mods[0], mods[3]], None, shape=shape, via=via)
@@ -328,7 +343,6 @@ def run_shard(spec, ctx):
     if gen == "build-seq":
         # histories of build_registry calls in ONE process (default keyword directory): every result must be exactly
         # what its own arguments ask for, whatever was built before
-        import multidecoder
         kwdir = os.path.join(os.path.dirname(multidecoder.__file__), "keywords")
         n_files = sum(1 for p in pathlib.Path(kwdir).rglob("*") if p.is_file() and any(ln for ln in p.read_bytes().splitlines()))
         step = 0
